@@ -1,8 +1,8 @@
 """C08 - Garbage collection is complete and confined to the caller's own data."""
-from specs import c18, snapbody, gc, loc
+from specs import fsutil, c18, snapbody, gc, loc, local
 
 LEVEL = 'proof'
-UNITS = [gc.delete_unit('C08'), gc.clean_unit('C08'), snapbody.download_snapshot_unit('C08')] + c18.units('C08')[:1] + loc.loc_units('C08') + loc.parts_units('C08') + [loc.chunk_loc_unit('C08')] + snapbody.load_units('C08')
+UNITS = [fsutil.scandir_unit('C08')] + local.small_units('C08') + [gc.delete_unit('C08'), gc.clean_unit('C08'), snapbody.download_snapshot_unit('C08')] + c18.units('C08')[:1] + loc.loc_units('C08') + loc.parts_units('C08') + [loc.chunk_loc_unit('C08')] + snapbody.load_units('C08')
 BOUNDED = [{'name': 'C08.history', 'script': 'bounded/hist.py', 'timeout': 1200, 'args': {'prop': 'C08'}, 'bound': 'random histories of snapshot/delete/clean by owner, shared-key and independent-key users (and one unencrypted user): <= 10 operations, <= 4 paths per snapshot from 6 overlapping contents, chunks 8..64, 5 (thorough: 40) seeded histories per mode; every remaining snapshot is restored by its owner after each destructive step; plus (C08) one clean after a snapshot that left >= 700 (thorough: 1200) orphan chunks behind'}]
 TRUSTED = [
     'vf symbolic executor (/verif/vf): encoding of the Python subset (DESIGN 2.2)',
